@@ -257,6 +257,12 @@ def run(ctx, focus):
                                        'resumed_lines': o2.count(b'\n'), 'witness': {'spec': spec, 'cli': fl}})
         cases += cli_runs
         cases += session_tie_histories(ctx, violations, dist)
+        # the program itself: quit by a typed q while guesses flow, another session whose name differs only after the last dot, resume
+        from props import C15 as _c15
+        vs_cli, info_cli = _c15.cli_interleaved_sessions('C08', 'c08audit', _c15.big_plain_spec())
+        violations += vs_cli
+        cases += 1
+        dist['cli_interleaved'] = info_cli
     return {
         'evaluations': cases, 'distinct_nontrivial': nontrivial, 'traces': cases + cuts,
         'rule': 'rulesets from gen_rulesets (dyadic / float / tiny-magnitude probabilities, repeated variable types, '
@@ -273,6 +279,10 @@ def run(ctx, focus):
 
 def replay(ctx, payload, focus):
     w = payload.get('violation', {}).get('witness') or payload.get('witness')
+    if w and 'cli_history' in w:
+        from props import C15 as _c15
+        common.use_impl()
+        return _c15.cli_interleaved_sessions('C08', 'c08audit', _c15.big_plain_spec())[0]
     if w and w.get('history') == 'session-tie':
         import sched_session as ss
         common.use_impl()
